@@ -585,6 +585,26 @@ def rule_no_stale_cache(ctx: Ctx, rep: Report, rule: str, module_prefixes: tuple
             rep.ob(rule, f"{q}:holds:{call_name(c)}", not leaks, fi.where(leaks[0] if leaks else a),
                    "the cached container is read, not handed out or edited" if not leaks else
                    f"`{norm(leaks[0])[:60]}`: the object {call_name(c)} memoizes is handed out or edited -- one caller's edit is every later caller's answer")
+    # (d) a memo kept by hand in the instance __dict__ (a frozen dataclass has no other place) is
+    # the same thing: what is stored there and is a mutable container is answered as a copy
+    for q, fi in sorted(ctx.prog.functions.items()):
+        if not any(q.startswith(p_) for p_ in module_prefixes) or fi.cls is None:
+            continue
+        kept = set()
+        for a in own_nodes(fi.node):
+            if isinstance(a, ast.Assign):
+                tg = [t for t in a.targets for t in ast.walk(t)]
+                if any(isinstance(t, ast.Subscript) and str(norm(t.value)).endswith(".__dict__") for t in tg) or "__dict__" in str(norm(a.value)):
+                    kept |= {t.id for t in a.targets if isinstance(t, ast.Name)}
+                    kept |= {t.id for t in tg if isinstance(t, ast.Name)}
+        if not kept or not (_annotation_names(ctx, fi.node.returns) & MUTABLE_CONTAINERS):
+            continue
+        for r in own_nodes(fi.node):
+            if isinstance(r, ast.Return) and r.value is not None:
+                n += 1
+                direct = isinstance(r.value, ast.Name) and r.value.id in kept
+                rep.ob(rule, f"{q}:hand_kept_memo", not direct, fi.where(r), "the kept value is answered as a copy" if not direct else
+                       f"`{norm(r)}` answers the very object kept in the instance __dict__: a caller's edit of it is every later read's answer")
     rep.ob(rule, "scanned", True, "btclib:1", f"{len(cached)} memoized functions answering mutable containers; {n} uses and cached properties in {module_prefixes}")
     rep.floor(rule, floor)
 
